@@ -78,6 +78,14 @@ class Ctx:
             if forms and all(f is not None and f == forms[0] for f in forms):
                 return forms[0]
             return None
+        if s.k == "bin" and s.x["op"] == "Div":
+            # buffer.len() / size_of::<EntryBound>(): the number Q of whole bounds, 16 Q <= L < 16 Q + 16
+            num = self.lin(s.a[0], s.x.get("site", at), depth)
+            den = fold(s.a[1])
+            if num == {"L": 1} and den == 16:
+                self.extra_facts += [{"L": 1, "Q": -16}, {"Q": 16, 1: 15, "L": -1}]
+                return {"Q": 1}
+            return None
         if s.k == "bin":
             op = s.x["op"].replace("WithOverflow", "")
             a, b_ = self.lin(s.a[0], s.x.get("site", at), depth), self.lin(s.a[1], s.x.get("site", at), depth)
